@@ -96,6 +96,14 @@ func (w *CWorld) applyEvent(ev string, p cParams) bool {
 		}
 		sc.conn.Close()
 		w.settle()
+	case "addhandler": // the application registers one more handler while the client is running
+		if w.Late != nil {
+			return false
+		}
+		w.Late = &cRec{w: w, id: 2}
+		w.lateFrom = len(w.H[0].events)
+		w.C.RegisterHandler(w.Late)
+		w.settle()
 	case "wfail": // half-open connection: the client's next write fails, its reads keep waiting
 		if !alive || sc.conn.Peer.WriteFail {
 			return false
@@ -236,6 +244,8 @@ func (w *CWorld) eventEnabled(ev string) bool {
 		return alive && sc.acceptSent != ""
 	case "wfail":
 		return alive && sc.acceptSent != "" && !sc.conn.Peer.WriteFail && w.wfails < 1
+	case "addhandler":
+		return w.Late == nil
 	case "call":
 		n := 0
 		for _, c := range w.calls {
@@ -522,6 +532,24 @@ func (w *CWorld) oracleNotifications(p cParams) {
 			if a[i].Kind != b[i].Kind || a[i].ID != b[i].ID {
 				w.fail("C17", "every-handler-same-order", "handlers got different sequences", fmt.Sprintf("position %d: %s%d vs %s%d", i, a[i].Kind, a[i].ID, b[i].Kind, b[i].ID))
 				break
+			}
+		}
+	}
+	// a handler registered later receives everything from then on
+	if w.Late != nil {
+		rest := a
+		if w.lateFrom <= len(a) {
+			rest = a[w.lateFrom:]
+		}
+		l := w.Late.events
+		if len(l) != len(rest) {
+			w.fail("C17", "every-handler-same-order", "a handler registered while running missed notifications", fmt.Sprintf("handler 0 received %d notifications after the registration, the late handler %d", len(rest), len(l)))
+		} else {
+			for i := range rest {
+				if rest[i].Kind != l[i].Kind || rest[i].ID != l[i].ID {
+					w.fail("C17", "every-handler-same-order", "handlers got different sequences (late handler)", fmt.Sprintf("position %d: %s%d vs %s%d", i, rest[i].Kind, rest[i].ID, l[i].Kind, l[i].ID))
+					break
+				}
 			}
 		}
 	}
